@@ -4,6 +4,7 @@ import (
 	"encoding/binary"
 	"errors"
 	"fmt"
+	"hash/crc32"
 	"path/filepath"
 	"reflect"
 	"regexp"
@@ -41,16 +42,43 @@ func BuildTagged(r ReqSpec) (tl.Object, reflect.Type) {
 }
 
 // Expected renders the value a call with this tag must return (same rendering as renderTagged).
+// bigResult: one tag in five gets a large answer (tens of kilobytes: many TCP segments, many reads of a gzip stream)
+func bigResult(tag int) bool { return tag%5 == 2 }
+
+func bigObjectTail(tag int) []byte {
+	b := make([]byte, 20000+(tag%13)*1000)
+	x := uint32(tag)*2654435761 + 1
+	for i := range b {
+		x = x*1664525 + 1013904223
+		b[i] = byte(x >> 24)
+	}
+	return b
+}
+
+func bigVecLen(tag int) int { return 1500 + (tag%7)*997 }
+
 func Expected(r ReqSpec) string {
 	t := int64(r.Tag)
 	switch r.Kind {
 	case "object":
+		if bigResult(r.Tag) {
+			tail := bigObjectTail(r.Tag)
+			return fmt.Sprintf("object:%d+%d bytes crc %08x", t, len(tail), crc32.ChecksumIEEE(tail))
+		}
 		return fmt.Sprintf("object:%d", t)
 	case "bool":
 		return fmt.Sprintf("bool:%v", t%2 == 0)
 	case "vecint":
 		return fmt.Sprintf("vecint:[%d %d %d]", t, t+1, t+2)
 	case "veclong":
+		if bigResult(r.Tag) {
+			n := bigVecLen(r.Tag)
+			var sum int64
+			for i := 0; i < n; i++ {
+				sum += t<<20 + int64(i)*int64(i)
+			}
+			return fmt.Sprintf("veclong:%d items, sum %d", n, sum)
+		}
 		return fmt.Sprintf("veclong:[%d %d]", t, t<<32|1)
 	case "vecobj":
 		return fmt.Sprintf("vecobj:[%d %d]", t, t+1)
@@ -65,6 +93,9 @@ func renderTagged(kind string, v any) string {
 		if o, ok := v.(*telegram.MessagesDhConfigNotModified); ok && len(o.Random) == 4 {
 			return fmt.Sprintf("object:%d", binary.LittleEndian.Uint32(o.Random))
 		}
+		if o, ok := v.(*telegram.MessagesDhConfigNotModified); ok && len(o.Random) > 4 {
+			return fmt.Sprintf("object:%d+%d bytes crc %08x", binary.LittleEndian.Uint32(o.Random), len(o.Random)-4, crc32.ChecksumIEEE(o.Random[4:]))
+		}
 	case "bool":
 		if b, ok := v.(bool); ok {
 			return fmt.Sprintf("bool:%v", b)
@@ -74,6 +105,13 @@ func renderTagged(kind string, v any) string {
 			return "vecint:" + fmt.Sprint(s)
 		}
 	case "veclong":
+		if s, ok := v.([]int64); ok && len(s) > 8 {
+			var sum int64
+			for _, x := range s {
+				sum += x
+			}
+			return fmt.Sprintf("veclong:%d items, sum %d", len(s), sum)
+		}
 		if s, ok := v.([]int64); ok {
 			return "veclong:" + fmt.Sprint(s)
 		}
@@ -126,6 +164,10 @@ func resultBody(kind string, tag int) []byte {
 	t := int64(tag)
 	switch kind {
 	case "object":
+		if bigResult(tag) {
+			w.U32(0xc0e24635).Str(append(binary.LittleEndian.AppendUint32(nil, uint32(tag)), bigObjectTail(tag)...))
+			break
+		}
 		w.U32(0xc0e24635).Str(binary.LittleEndian.AppendUint32(nil, uint32(tag)))
 	case "bool":
 		if t%2 == 0 {
@@ -135,6 +177,14 @@ func resultBody(kind string, tag int) []byte {
 	case "vecint":
 		w.U32(refsrv.IDVector).U32(3).I32(int32(t)).I32(int32(t + 1)).I32(int32(t + 2))
 	case "veclong":
+		if bigResult(tag) {
+			n := bigVecLen(tag)
+			w.U32(refsrv.IDVector).U32(uint32(n))
+			for i := 0; i < n; i++ {
+				w.I64(t<<20 + int64(i)*int64(i))
+			}
+			break
+		}
 		w.U32(refsrv.IDVector).U32(2).I64(t).I64(t<<32 | 1)
 	case "vecobj":
 		w.U32(refsrv.IDVector).U32(2).U32(0x200250ba).I32(int32(t)).U32(0x200250ba).I32(int32(t + 1))
